@@ -24,6 +24,7 @@ RULE = ("Pairs (WSGI run, ASGI run) of the same abstract case. Request views: ge
         "decorator and middleware stacks around recipes. Routing: Router tables (all convertors), nested Subpaths tables, Hosts tables with echoing leaves x generated "
         "paths/hosts. Static: Files and Pages over a sandbox tree x paths x conditional / range headers. Non-trivial = pair in which both sides produced an observation for "
         "a case that is not a bare GET /; distinct = (family, case).")
+RULE += ' Also: forms with exactly 323 / 324 / 325 parts, message cuts inside multi-byte characters, bytearray / memoryview content, client addresses (absent, IPv4, IPv6), one response object answering 2-3 requests on each interface (later answers compared as well), SSE producers slower than the ping interval (pings stripped before comparison).'
 ASSUMPTIONS = [
     "request header names are unique and contain no underscore (WSGI cannot distinguish '_' from '-'); header values are Latin-1 without CR/LF/NUL",
     "paths are valid UTF-8 (an ASGI server decodes the path before baize sees it, a WSGI server passes the Latin-1 view of the bytes)",
